@@ -52,8 +52,15 @@ def mc_reader(w, e, strict, pat, depth, full, live=False):
                          % (w, e, "TRUE" if strict else "FALSE", pat, depth, "TRUE" if full else "FALSE"))
 
 
+def mc_bitstream(e, strict):
+    return dict(name="bitstream_%s_%s" % (e, "strict" if strict else "inf"), module="MC_BitStream", workers=4, timeout=1800, live=True,
+                cfg_text='SPECIFICATION Spec\nCONSTANTS EC = "%s"\n Strict = %s\n MaxOps = 3\n DataBytes <- DataConst\n Src <- SrcConst\n'
+                         'INVARIANTS Canonical CountsNoPadding SeekEquivalence\nPROPERTY AppendOnly\nCHECK_DEADLOCK FALSE\n'
+                         % (e, "TRUE" if strict else "FALSE"))
+
+
 def writer_mcs(tier):
-    out = []
+    out = [mc_bitstream("le", True), mc_bitstream("be", False)]
     for e in ("be", "le"):
         out.append(mc_writer(8, e, 1, True, live=True))
         out.append(mc_writer(8, e, 2, True))
@@ -133,12 +140,20 @@ def code_units(mode, tier, seed, n_quick=15, n_thorough=60):
     return cfg_shards("codes-" + mode, "codes", n, seed, dict(mode=mode, full=0 if q else 1))
 
 
+def edge_units(tier, seed, variant=REL, n=6):
+    return cfg_shards("codes-edges", "codes", n, seed, dict(mode="edges", full=0), variant=variant)
+
+
+def enc_table_units(tier, seed, variant=REL):
+    return cfg_shards("codes-enc-tables", "codes", 6, seed, dict(mode="enc_tables", full=0), variant=variant)
+
+
 MC_CODES = dict(name="codes_theorems", module="MC_Codes", cfg="MC_Codes.cfg", workers=1, timeout=3600)
 
 
 def c03(tier, seed):
     q = tier == "quick"
-    units = code_units("concat", tier, seed) + code_units("offsets", tier, seed)
+    units = code_units("concat", tier, seed) + code_units("offsets", tier, seed) + edge_units(tier, seed)
     units += shards("hist", "hist", 4 if q else 16, seed + 17, dict(histories=5 if q else 20, len=40))
     return dict(
         mc=[MC_CODES],
@@ -158,7 +173,7 @@ def c04(tier, seed):
         rule="every code x parameter x value of the grids written alone at a word boundary by writers of "
              "several/all word sizes with every table option; TLC compares the delivered bytes with "
              "Codes!Enc (the published definition) through the layout contract. distinct = (family, parameter, value).",
-        units=code_units("alone", tier, seed),
+        units=code_units("alone", tier, seed) + edge_units(tier, seed + 1) + enc_table_units(tier, seed),
     )
 
 
@@ -168,7 +183,8 @@ def c06(tier, seed):
         rule="length functions (every table variant, enum dispatch) logged as len events and compared by TLC "
              "with Codes!CLen; the value returned by each write and the advance of each read are compared with "
              "the same closed form in the write/read events. distinct = (family, parameter, value).",
-        units=code_units("alone", tier, seed + 1) + code_units("concat", tier, seed + 1, 6, 30),
+        units=code_units("alone", tier, seed + 1) + code_units("concat", tier, seed + 1, 6, 30) + edge_units(tier, seed + 2)
+              + enc_table_units(tier, seed + 1),
     )
 
 
@@ -180,7 +196,11 @@ def c05(tier, seed):
     q = tier == "quick"
     units = cfg_shards("tables", "tables", NR, seed, dict(full=0 if q else 1, frac=16 if q else 1),
                        pick=pick_cfgs(NR, 12, seed) if q else None)
-    units += code_units("alone", tier, seed + 2, 6, 30)        # encode / length tables: every entry
+    units += cfg_shards("eof", "eof", 14, seed + 3, dict(streams=1 if q else 4, len=16 if q else 40, cutstep=1),
+                        pick=pick_cfgs(14, 7, seed) if q else None)   # fewer bits than the index width before a strict end
+    units += cfg_shards("crossing", "crossing", 14, seed + 1, dict(), pick=pick_cfgs(14, 7, seed + 1) if q else None)
+    units += enc_table_units(tier, seed + 2)                   # encode / length tables: every entry, every option
+    units += code_units("alone", tier, seed + 2, 6, 30)
     units += code_units("concat", tier, seed + 2, 6, 30)       # defaults and every table option on read
     return dict(
         needs_gen=True,
@@ -235,8 +255,9 @@ def c08(tier, seed):
 
 def c09(tier, seed):
     q = tier == "quick"
-    units = cfg_shards("eof", "eof", 14, seed, dict(streams=1 if q else 6, len=24 if q else 40, cutstep=1))
+    units = cfg_shards("eof", "eof", 14, seed, dict(streams=2 if q else 8, len=16 if q else 40, cutstep=1))
     units += cfg_shards("tables", "tables", NR, seed, dict(full=0, frac=64), pick=pick_cfgs(NR, 6, seed + 9))
+    units += cfg_shards("crossing", "crossing", 14, seed, dict())
     return dict(
         needs_gen=True,
         mc=[m for m in reader_mcs(tier) if "strict" in m["name"]],
@@ -436,6 +457,7 @@ def c19(tier, seed):
                             pick=pick_cfgs(15, 2 if q else 6, seed + vi), variant=v)
         units += cfg_shards("iow-" + tag, "wstates", NW, seed + vi, dict(paths=WP, ops="c12", full=0),
                             pick=pick_cfgs(NW, 2 if q else 8, seed + vi), variant=v)
+        units += edge_units(tier, seed + vi, variant=v, n=3)
     return dict(
         needs_gen=True,
         rule="the same drivers (random histories, copy matrix, codes alone, io writes) in the build variants "
